@@ -132,34 +132,24 @@ pub fn combine<'a>(
             data.push(Box::new(vec![MergeOp::TakeLeft, MergeOp::MergeRight]));
             (vec![], ops)
         } else if lprojection.len() == 1 {
-            let (l, r) = unify_types(&mut qp, left[lprojection[0]], right[rprojection[0]]);
-            let l = null_to_val(&mut qp, l);
-            let r = null_to_val(&mut qp, r);
+            let (l, r) = unify_grouping_types(&mut qp, left[lprojection[0]], right[rprojection[0]]);
             let (ops, merged) = qp.merge_deduplicate(l, r);
             (vec![merged.any()], ops)
         } else {
-            let (l, r) = unify_types(&mut qp, left[lprojection[0]], right[rprojection[0]]);
-            let l = null_to_val(&mut qp, l);
-            let r = null_to_val(&mut qp, r);
+            let (l, r) = unify_grouping_types(&mut qp, left[lprojection[0]], right[rprojection[0]]);
             let mut partitioning = qp.partition(l, r, limit, false);
             for i in 1..(lprojection.len() - 1) {
-                let (l, r) = unify_types(&mut qp, left[lprojection[i]], right[rprojection[i]]);
-                let l = null_to_val(&mut qp, l);
-                let r = null_to_val(&mut qp, r);
+                let (l, r) = unify_grouping_types(&mut qp, left[lprojection[i]], right[rprojection[i]]);
                 partitioning = qp.subpartition(partitioning, l, r, false);
             }
 
             let last = lprojection.len() - 1;
-            let (l, r) = unify_types(&mut qp, left[lprojection[last]], right[rprojection[last]]);
-            let l = null_to_val(&mut qp, l);
-            let r = null_to_val(&mut qp, r);
+            let (l, r) = unify_grouping_types(&mut qp, left[lprojection[last]], right[rprojection[last]]);
             let (ops, merged) = qp.merge_deduplicate_partitioned(partitioning, l, r);
 
             let mut group_by_cols = Vec::with_capacity(lprojection.len());
             for i in 0..last {
-                let (l, r) = unify_types(&mut qp, left[lprojection[i]], right[rprojection[i]]);
-                let l = null_to_val(&mut qp, l);
-                let r = null_to_val(&mut qp, r);
+                let (l, r) = unify_grouping_types(&mut qp, left[lprojection[i]], right[rprojection[i]]);
                 let merged = qp.merge_drop(ops, l, r);
                 group_by_cols.push(merged.any());
             }
@@ -250,9 +240,9 @@ pub fn combine<'a>(
                 for i in 1..(batch1.order_by.len() - 1) {
                     let (index1, desc) = batch1.order_by[i];
                     let (index2, _) = batch2.order_by[i];
-                    let (l, r) = unify_types(&mut qp, left[index1], right[index2]);
-                    let l = null_to_val(&mut qp, l);
-                    let r = null_to_val(&mut qp, r);
+                    let l = null_to_val(&mut qp, left[index1]);
+                    let r = null_to_val(&mut qp, right[index2]);
+                    let (l, r) = unify_types(&mut qp, l, r);
                     partitioning = qp.subpartition(partitioning, l, r, desc);
                 }
                 let l = null_to_val(&mut qp, left[final_sort_col_index1]);
@@ -431,6 +421,26 @@ fn unify_types(
         right = qp.cast(right, lub);
     }
     (left, right)
+}
+
+/// Brings the two sides of a grouping column to a common type.
+/// A grouping column that is absent from (or entirely NULL in) a partition has type `Null`. Integer grouping
+/// columns represent NULL in-band (`I64_NULL`), so `Null` is cast to `I64`; for every other type the comparison
+/// goes through `Val`, as in the sort branch (`Null` has no upper bound with `Str`, `OptStr` or `F64`).
+fn unify_grouping_types(
+    qp: &mut QueryPlanner,
+    mut left: TypedBufferRef,
+    mut right: TypedBufferRef,
+) -> (TypedBufferRef, TypedBufferRef) {
+    let typed_without_in_band_null =
+        |t: EncodingType| t != EncodingType::Null && t != EncodingType::I64;
+    if left.tag == EncodingType::Null && typed_without_in_band_null(right.tag) {
+        left = null_to_val(qp, left);
+    } else if right.tag == EncodingType::Null && typed_without_in_band_null(left.tag) {
+        right = null_to_val(qp, right);
+    }
+    let (left, right) = unify_types(qp, left, right);
+    (null_to_val(qp, left), null_to_val(qp, right))
 }
 
 fn null_to_val(qp: &mut QueryPlanner, plan: TypedBufferRef) -> TypedBufferRef {
